@@ -4,11 +4,12 @@
      sin, cos, sinh, cosh: (sin a cosh b, sinh b cos a), (cos a cosh b, -(sinh b sin a)), (sinh a cos b, sin b cosh a),
                            (cosh a cos b, sin b sinh a)
      tan:  (sin 2a / D, sinh 2b / D),  D = cos 2a + cosh 2b
-     cot:  (-(sin 2a / D), sinh 2b / D),  D = cos 2a - cosh 2b     -- the rule AFTER fix-1
+     cot:  (-(sin 2a / D), sinh 2b / D),  D = cos 2a - cosh 2b     -- the CORRECT formula, not the code's
      tanh: (sinh a cosh a / D, sin b cos b / D),  D = sinh^2 a + cos^2 b
      coth: (sinh a cosh a / D, -(sin b cos b / D)),  D = sinh^2 a + sin^2 b
-   and REFUTATION of the cot rule as shipped before fix-1 (imaginary part -(sinh 2b / D)): wrong at z = I
-   (replayed on the library: `(f1 cot (add (i 2) I))`, check key C36/ri-value:cot).
+   and REFUTATION of the cot rule as the code has it (imaginary part -(sinh 2b / D)): wrong at z = I
+   (replayed on the library: `(f1 cot (add (i 2) I))`, known finding C36/ri-value:cot; the one-line repair was not
+   applied because the repository's unit test pins the wrong value).
    The csc / sec / csch / sech rules call the visitor on 1/sin ... and need no identity.
    Not covered here: the arithmetic rules (Add, Mul, integer Pow through pow_number) are tied to the library by
    the check (exact trees), their value statement is not proved. *)
